@@ -4,12 +4,12 @@ from __future__ import annotations
 import asyncio
 import importlib
 
-from pyvc.sorts import Undefined
+from pyvc.pyvalues import Undefined
 
 
 def real(v):
     """Model value -> value for the real library (UNDEFINED sentinel, match records...)."""
-    if isinstance(v, Undefined):
+    if isinstance(v, Undefined) or (isinstance(v, dict) and v.get("<undefined>")):
         return importlib.import_module("jsonpath.filter").UNDEFINED
     if isinstance(v, dict) and v.get("<match>"):
         return make_match(v)
@@ -86,6 +86,7 @@ SPEC_OF = {
 
 def selector_replay(clsname, mode):
     def replay(inputs):
+        inputs = dict(inputs)
         import specs.rfc9535 as spec
 
         if clsname == "ListSelector":
@@ -112,3 +113,8 @@ def selector_replay(clsname, mode):
         return None
 
     return replay
+
+
+def run(factory, args, inputs):
+    """Entry point of stand-alone replay files: rebuild the replay function and run it."""
+    return globals()[factory](*args)(inputs)
